@@ -13,6 +13,8 @@ use std::sync::Arc;
 use vcore::Violation;
 
 pub const FIELD: &str = "v";
+/// per worker chunk
+pub const VIOLATION_RECORD_CAP: usize = 60;
 
 pub fn schema_for(ft: &Ft) -> Arc<Schema> {
     let mut b = Schema::builder();
@@ -59,6 +61,7 @@ pub struct Tally {
     pub violations: Vec<Violation>,
     pub samples: Vec<serde_json::Value>,
     pub valid_rejected_samples: Vec<String>,
+    pub violations_not_recorded: u64,
 }
 
 impl Tally {
@@ -70,6 +73,9 @@ impl Tally {
         run.add("model_invalid", self.model_invalid);
         run.add("model_unspecified", self.model_unspec);
         run.add("model_valid_but_rejected", self.valid_rejected);
+        if self.violations_not_recorded > 0 {
+            run.add("violations_beyond_record_cap", self.violations_not_recorded);
+        }
         for d in self.distinct {
             run.distinct(d);
         }
@@ -243,6 +249,11 @@ pub fn run_case(case: &Case, entry: Entry, t: &mut Tally) {
         Class::Unspec => t.model_unspec += 1,
     }
     let fail = |t: &mut Tally, kind: &str, shape: String, detail: String| {
+        // a broken tree can fail hundreds of thousands of cases: write out the first ones only
+        if t.violations.len() >= VIOLATION_RECORD_CAP {
+            t.violations_not_recorded += 1;
+            return;
+        }
         t.violations.push(Violation {
             signature: format!("C13|{}|{}|{}", entry.name(), kind, shape),
             summary: format!(
@@ -349,7 +360,7 @@ pub fn run_case(case: &Case, entry: Entry, t: &mut Tally) {
                     Err(e) => fail(t, "typed-fails", skeleton(ft), format!("try_into fails: {e}")),
                 }
             }
-            if t.samples.len() < 2 && class == Class::Valid && !matches!(case.value, Fv::Null) && case.desc.starts_with("swap") {
+            if t.samples.len() < 2 && class == Class::Valid && !matches!(case.value, Fv::Null) && case.desc.contains("swap") {
                 t.samples.push(json!({
                     "entry": entry.name(),
                     "type": format!("{ft:?}"),
